@@ -340,6 +340,16 @@ def replay_case(args):
 REPLAYERS = {"case": replay_case}
 
 
+def float_pairs_case(args):
+    env = Env(None, values=dict(args.get("values", {})))
+    if args["case"].get("switch"):
+        return switch_pairs(args["case"], env)
+    return pairs_for(args["case"], env)[0]
+
+
+REPLAYERS["case:pairs"] = float_pairs_case
+
+
 def run(chk, only=None):
     from yadism.coefficient_functions import splitting_functions as split
     from yadism.esf import esf as esfmod
